@@ -925,7 +925,37 @@ def install(lib):
 
     @F('dict.setdefault')
     def _dsetdefault(it, a, k, n):
-        raise Unsupported('dict.setdefault', n)
+        """d.setdefault(key, default): the value stored under key (default is stored first when the key is absent).  When the
+        value is itself a container, the result is a *view*: a container object whose in-place changes are written through to
+        d[key] (the one aliasing pattern the value model supports; any earlier view of the same dict is frozen)"""
+        cellobj = a[0]
+        c = it.content(cellobj)
+        if not isinstance(c, VMap) or not isinstance(cellobj, (VCell, VFieldCell)):
+            raise Unsupported('dict.setdefault on %r' % (c,), n)
+        if getattr(cellobj, 'frozen', False):
+            raise Unsupported('dict.setdefault on a container object that is also stored inside another container', n)
+        key = it.ctx.force(a[1])
+        default = a[2] if len(a) > 2 else NONE
+        if c.t is None:
+            lib._type_map(c, key, default)
+        o = lib._map_opt(c)
+        try:
+            kt = c.kty.encode(key)
+            dt = c.vty.encode(default if isinstance(c.vty, (Opt, type(Any))) or isinstance(default, VCell) else it.ctx.force(default))
+        except EncodeError as e:
+            raise Unsupported('dict.setdefault with a key/default of unexpected type: %s' % e, n)
+        cur = z3.Select(c.t, kt)
+        val_t = z3.If(o.is_none(cur), dt, o.val(cur))
+        it.set_content(cellobj, VMap(z3.Store(c.t, kt, o.some(val_t)), c.kty, c.vty))
+        val = c.vty.wrap(simp(val_t))
+        if isinstance(val, VCell):
+            for old_view in getattr(cellobj, 'views', []):
+                old_view.frozen = True
+            val.parent = (cellobj, key)
+            cellobj.views = [val]
+            if isinstance(default, VCell):
+                default.frozen = True          # the default object itself may now be the stored one
+        return val
     dm['setdefault'] = _dsetdefault
 
     @F('dict.copy')
